@@ -65,6 +65,11 @@ def step (q : Q) (line : String) : Q × String :=
       else (q, "noseg")
     | none => (q, "bad-op")
   | ["purge"] => (Q.purge (q.segs.length + 1) q, "ok")
+  | ["crash", "torn", _, _, _] =>
+    -- the crash tears the flush of one more block, which was never acknowledged: what the
+    -- property demands is what a crash at that moment without the torn bytes gives
+    let q1 := q.crash
+    (q1.setMaxSegmentSize q.maxSegSize, "ok")
   | ["crash"] =>
     -- a crash image taken now, restarted; the segment size limit is configuration and is set again
     let q1 := q.crash
